@@ -1,7 +1,7 @@
 (* Props/TotalNeutral.v — property theorem only.  implicit::resolve_neutral (with
    identify_bracket_pairs) at character level never panics on a well-formed isolating run sequence,
    keeps the vector length and leaves every position outside the sequence's runs untouched. *)
-From BidiVerif Require Import Base ConstsGen TablesGen ModelText ModelResolve ModelLine Spec Obs Judge Stmts Stmts2 Stmts3 Stmts4.
+From BidiVerif Require Import Base ConstsGen TablesGen ModelText RefDs ModelResolve ModelLine Spec Obs Judge Stmts Stmts2 Stmts3 Stmts4.
 From BidiVerif.Proofs Require Import TotalNeutral.
 
 Theorem t_neutral : T_neutral.
@@ -16,10 +16,10 @@ Example t_neutral_example :
   let lv := repeat 1 7 in
   length pc = length cps /\ length pc = length cps /\ length lv = length cps /\
   seq_wf (length cps) sq /\
-  map hardcoded_class cps = pc /\
-  identify_bracket_pairs U32 hardcoded_ds cps sq pc pc =
+  map ucd16_class cps = pc /\
+  identify_bracket_pairs U32 ucd16_ds cps sq pc pc =
     Ok [{| bp_start := 1; bp_end := 4; bp_start_run := 0; bp_end_run := 1 |}] /\
-  resolve_neutral U32 hardcoded_ds cps sq lv pc pc = Ok [L; R; BN; R; R; R; R].
+  resolve_neutral U32 ucd16_ds cps sq lv pc pc = Ok [L; R; BN; R; R; R; R].
 Proof.
   intros cps sq pc lv.
   repeat split; try (vm_compute; reflexivity); try (vm_compute; lia).
